@@ -295,9 +295,10 @@ impl Deserializable for TraceInfo {
 
         // read and validate number of random elements for the auxiliary trace segment
         let num_aux_segment_rands = source.read_u8()? as usize;
-        if aux_segment_width != 0 && num_aux_segment_rands == 0 {
+        if aux_segment_width == 0 && num_aux_segment_rands != 0 {
             return Err(DeserializationError::InvalidValue(
-                "a non-empty trace segment must require at least one random element".to_string(),
+                "number of random elements for an empty auxiliary trace segment must be zero"
+                    .to_string(),
             ));
         } else if num_aux_segment_rands > TraceInfo::MAX_RAND_SEGMENT_ELEMENTS {
             return Err(DeserializationError::InvalidValue(format!(
